@@ -29,10 +29,16 @@ import (
 // map hash seeds; ascending order, descending order, and each case in a process of its own); output digests are compared.
 // Process-global canaries after every case catch contamination between cases.
 
-type c08 struct{ scenBase }
+type c08 struct {
+	scenBase
+	// one case at a time per process: the runner of the latest execution and, from the fourth repetition on, the one whose
+	// assets are kept
+	lastRunner, reuse      *drive.Runner
+	lastLoaded, reuseState drive.SourceState
+}
 
 func init() {
-	fw.Register(&c08{scenBase{id: "C08", quickN: 400, thorN: 20000, batchQ: 50, batchT: 250}})
+	fw.Register(&c08{scenBase: scenBase{id: "C08", quickN: 400, thorN: 20000, batchQ: 50, batchT: 250}})
 }
 
 func (p *c08) Rule() string {
@@ -43,7 +49,7 @@ func (p *c08) Directed() []string {
 	return []string{"two-languages-different-refs", "two-webhook-headers", "many-issues-one-node", "case-variant-json-keys", "clone-with-ui-and-localization", "custom-number-format-then-default", "many-results-fields-groups", "number-format-comma-space", "number-format-comma-dot", "number-format-dot-space", "number-format-dot-comma",
 		// a session that recreates @webhook from a result's extra after being re-read (the recreated value is marked
 		// deprecated), for every kind of bare JSON body, each followed by a session that reads the same kinds of JSON value
-		"reread-webhook-true", "json-value-readers-1", "reread-webhook-false", "json-value-readers-2", "reread-webhook-null", "json-value-readers-3", "reread-webhook-number", "reread-webhook-string", "reread-webhook-array", "reread-webhook-empty", "json-value-readers-4", "legacy-extra-created-on-ties"}
+		"reread-webhook-true", "json-value-readers-1", "reread-webhook-false", "json-value-readers-2", "reread-webhook-null", "json-value-readers-3", "reread-webhook-number", "reread-webhook-string", "reread-webhook-array", "reread-webhook-empty", "json-value-readers-4", "legacy-extra-created-on-ties", "reread-webhook-hugeexp", "reread-webhook-nested", "reread-webhook-badjson", "reread-webhook-unavailable"}
 }
 
 func (p *c08) Floors(tier string) []string {
@@ -114,7 +120,8 @@ func (p *c08) directed(name string) *gen.Scenario {
 			d.Node("r1", nil, d.Switch("@input.text", []gen.M{num, oth}, oth, []gen.M{{"type": "has_number_gt", "arguments": []string{"100"}, "category_uuid": num["uuid"]}, {"type": "has_number", "category_uuid": num["uuid"]}}, gen.M{"type": "msg"}, "Amount"), d.Exit("r1num", "a2"), d.Exit("r1oth", "a2")),
 			d.Node("a2", []any{d.SendMsg("m", "@results.amount.value @(format_number(1234.5)) @(number(results.amount.value) + 1) @(has_number(input.text).match) @(text(1234.5))")}, nil, d.Exit("a2x", "r1")))),
 			Trigger: t, Resumes: []gen.M{d.MsgResume(0, "1.234,50"), d.MsgResume(1, "1 234,50"), d.MsgResume(2, "1,234.50"), d.MsgResume(3, "1.234.567")}}
-	case "reread-webhook-true", "reread-webhook-false", "reread-webhook-null", "reread-webhook-number", "reread-webhook-string", "reread-webhook-array", "reread-webhook-empty":
+	case "reread-webhook-true", "reread-webhook-false", "reread-webhook-null", "reread-webhook-number", "reread-webhook-string", "reread-webhook-array", "reread-webhook-empty",
+		"reread-webhook-hugeexp", "reread-webhook-nested", "reread-webhook-badjson", "reread-webhook-unavailable":
 		cmd := strings.TrimPrefix(name, "reread-webhook-")
 		return &gen.Scenario{Reread: true, Assets: d.BaseAssets(d.Flow("A", "messaging",
 			d.Node("a1", []any{act("w", "call_webhook", gen.M{"method": "GET", "url": "http://localhost/?cmd=" + cmd, "result_name": "webhook"}), d.SendMsg("m1", "before: @webhook @webhook.json @(json(webhook.json))")}, nil, d.Exit("a1x", "a2")),
@@ -195,10 +202,17 @@ func (p *c08) outputs(scen *gen.Scenario, seed int64, res *fw.Result, count bool
 }
 
 func (p *c08) outputsN(scen *gen.Scenario, seed int64, rot int, res *fw.Result, count bool) (out []string, err error) {
-	rn, err := drive.Load(scen, seed)
-	if err != nil {
-		return nil, err
+	var rn *drive.Runner
+	if p.reuse != nil {
+		// the assets and the engine of an earlier execution, kept as a host keeps them
+		rn = drive.LoadReusing(p.reuse, seed, p.reuseState)
+	} else {
+		rn, err = drive.Load(scen, seed)
+		if err != nil {
+			return nil, err
+		}
 	}
+	p.lastRunner, p.lastLoaded = rn, rn.Src.Snapshot()
 	add := func(label string, v any) {
 		var b []byte
 		switch t := v.(type) {
@@ -585,8 +599,16 @@ func (p *c08) runScen(res fw.Result, scen *gen.Scenario, c fw.Case) fw.Result {
 	}
 	res.NonTrivial = total > 0
 	// in-process repetition
+	defer func() { p.reuse = nil }()
 	for rep := 1; rep < 8; rep++ {
 		res.Count("clause.inprocess_repeat", 1)
+		if rep == 4 {
+			// from here on every execution runs over the session assets and engine of the third one
+			p.reuse, p.reuseState = p.lastRunner, p.lastLoaded
+		}
+		if p.reuse != nil {
+			res.Count("clause.inprocess_repeat_over_kept_assets", 1)
+		}
 		again, err := p.outputsN(scen, c.Seed, c.Index, &res, false)
 		if err != nil {
 			break
